@@ -908,14 +908,7 @@ func (g *G) callExpr(depth int) *N {
 	c := cs[g.draw(len(cs), "callee")]
 	if g.p.Deep && c.np == 0 && g.lookupType(c.name) == TFn0 && g.chance(3, "deep") {
 		g.usesDeep = true
-		hi := 140
-		if g.p.Throw {
-			// recorded finding (C13 deep-caught-throw-corrupts-frames): an error thrown and caught below roughly
-			// 85..110 active frames intermittently corrupts a call frame; programs that can throw keep their
-			// deep calls well below that depth
-			hi = 50
-		}
-		return &N{K: "call", S: "deep", T: TInt, C: []*N{{K: "int", I: int64(rapid.IntRange(20, hi).Draw(g.t, "deepn")), T: TInt}, {K: "var", S: c.name, T: TFn0}}}
+		return &N{K: "call", S: "deep", T: TInt, C: []*N{{K: "int", I: int64(rapid.IntRange(20, 140).Draw(g.t, "deepn")), T: TInt}, {K: "var", S: c.name, T: TFn0}}}
 	}
 	n := &N{K: "call", S: c.name, T: TInt}
 	for i := 0; i < c.np; i++ {
